@@ -216,6 +216,8 @@ main(int argc, char ** argv)
 		const char * method;
 		uint8_t * path, * reqbody, * resp;
 		struct http_header * hdrs;
+		void ** hptrs;
+		int hdrs_scribbled = 0;
 		struct http_request req;
 		struct sock_addr sa, * sas[2];
 		struct sockaddr_in sin;
@@ -248,6 +250,7 @@ main(int argc, char ** argv)
 		path[plen] = '\0';
 		nh = (size_t)vh_tok_u(&L, t++);
 		hdrs = vh_xmalloc((nh + 1) * sizeof(*hdrs));
+		hptrs = vh_xmalloc((2 * nh + 1) * sizeof(void *));
 		for (i = 0; i < nh; i++) {
 			size_t l1, l2;
 			uint8_t * a = vh_tok_hex(&L, t++, &l1);
@@ -257,6 +260,8 @@ main(int argc, char ** argv)
 			b[l2] = '\0';
 			hdrs[i].header = (char *)a;
 			hdrs[i].value = (char *)b;
+			hptrs[2 * i] = a;
+			hptrs[2 * i + 1] = b;
 		}
 		reqbody = vh_tok_hex(&L, t++, &rblen);
 		resp = vh_tok_hex(&L, t++, &resplen);
@@ -307,6 +312,20 @@ main(int argc, char ** argv)
 
 		wa_enable(1);
 		c = http_request(sas, &req, limit, http_cb, NULL);
+		/*
+		 * Only the request BODY buffer has to stay valid until the
+		 * callback (http.h); the request structure, its header array
+		 * and its strings may be reused or leave scope as soon as
+		 * http_request() has returned.  Make that so.
+		 */
+		for (i = 0; i < nh; i++) {
+			memset((void *)(uintptr_t)hdrs[i].header, 'H', strlen(hdrs[i].header));
+			memset((void *)(uintptr_t)hdrs[i].value, 'V', strlen(hdrs[i].value));
+		}
+		memset(hdrs, 0x5a, (nh + 1) * sizeof(*hdrs));
+		memset(path, 'P', plen);
+		memset(&req, 0x5a, sizeof(req));
+		hdrs_scribbled = 1;
 		if (c == NULL) {
 			printf("R ncb=%d resp=0 status=0 nh=0 hdrs=- blen=0 bcrc=0 bnull=1 "
 			    "sentlen=0 sentcrc=0 sent=- leak=0 pending=0 viol=request:refused\n", got.ncb);
@@ -473,11 +492,11 @@ cleanup:
 		simk_reset(1);
 		vh_free(got.hdrs);
 		got.hdrs = NULL;
-		for (i = 0; i < nh; i++) {
-			vh_free((void *)(uintptr_t)hdrs[i].header);
-			vh_free((void *)(uintptr_t)hdrs[i].value);
-		}
+		for (i = 0; i < 2 * nh; i++)
+			vh_free(hptrs[i]);
+		vh_free(hptrs);
 		vh_free(hdrs);
+		(void)hdrs_scribbled;
 		vh_free(path);
 		vh_free(reqbody);
 		vh_free(resp);
